@@ -257,15 +257,19 @@ for _c, _p, _q in (("cmd_decrypt_flow", ["C12", "C13", "C05", "C10", "C03", "C04
                    ("cmd_pass_encrypt_flow", ["C12", "C13", "C07", "C02", "C10"], ["C12", "C13", "C10"]),
                    ("cmd_pass_decrypt_flow", ["C12", "C13", "C02", "C10", "C03", "C04"], ["C12", "C13", "C10", "C03", "C04"])):
     H(name=_c, crate="kestrel-cli", mod="commands::verif_cmd", props=_p, quick_props=_q, est_s=(320 if "pass" not in _c else 220), timeout=2400,
-      mem_gb=(20 if "pass" not in _c else 14), rlimit_gb=(44 if "pass" not in _c else 30), replay="model",
+      mem_gb=(14 if "pass" not in _c else 10), rlimit_gb=(44 if "pass" not in _c else 30), replay="model",
       desc="command returns Ok iff every pre-check passed and the library call returned Ok (errors of every kind - authentication, trailing data, chunk length, read/write failures incl. BrokenPipe - are never swallowed, success never manufactured); output path untouched unless and until the library writes; then it holds exactly what the library wrote and is never removed or renamed; keys/passwords/salts handed to the library are the ones obtained (sender looked up by the authenticated key; salt = fresh CSPRNG draw)",
       funcs=["commands::" + _c.replace("cmd_", "").replace("_flow", "").replace("_other", ""), "commands::open_input", "commands::open_output", "commands::OnDemandFile"],
       bounds="input file argument (present or missing); output path absent | present (0..4 bytes); keyring missing | two entries (a: with or without private key, b: public only); names a | b | z (absent) split over the harness pair; every outcome of password prompt, unlock, checksum, and of the library call (0..2 writes before any of its error kinds or success)", env=CMD_ENV + ["E-CUT: anyhow replaced by a plain-struct stand-in (harness/env/anyhow-min); Stdout/Stdin methods reachable through Box<dyn Write/Read> accept everything"], outside=CMD_OUT + "; stdin/stdout instead of file arguments")
-for _c in ("cmd_pass_decrypt_stdio", "cmd_pass_decrypt_to_stdout", "cmd_pass_encrypt_stdio", "cmd_pass_encrypt_from_stdin"):
-    H(name=_c, crate="kestrel-cli", mod="commands::verif_cmd", props=["C12", "C13"], est_s=300, timeout=2400, mem_gb=16, rlimit_gb=36, replay="model",
-      desc="the same command with stdin in place of the input file and/or stdout in place of -o: outcome is the same function of pre-checks and library result; nothing is created on disk when stdout is the destination and every library write reaches stdout; refused when the stream in question is a terminal; with every pre-check passing the library is called",
+for _c, _t in (("cmd_pass_decrypt_from_stdin", "quick"), ("cmd_pass_encrypt_from_stdin", "quick"),
+               ("cmd_pass_decrypt_stdio", "thorough"), ("cmd_pass_decrypt_to_stdout", "thorough"), ("cmd_pass_encrypt_stdio", "thorough")):
+    H(name=_c, crate="kestrel-cli", mod="commands::verif_cmd", props=["C12", "C13"], tier=_t, est_s=(250 if _t == "quick" else 1500), timeout=(2400 if _t == "quick" else 5400), mem_gb=(10 if _t == "quick" else 30), rlimit_gb=(30 if _t == "quick" else 50), replay="model",
+      desc="the same command with stdin in place of the input file and/or stdout in place of -o: outcome is the same function of pre-checks and library result; nothing is created on disk when stdout is the destination and every library write reaches stdout; refused when the stream in question is a terminal; with every pre-check passing the library is called" + (" [stdout as destination ran out of memory at 36 GB in the quick tier: attempt under a larger cap]" if _t != "quick" else ""),
       funcs=["commands::" + _c.replace("cmd_", "").replace("_stdio", "").replace("_to_stdout", "").replace("_from_stdin", ""), "commands::open_input", "commands::open_output"],
-      bounds="wiring fixed per harness: stdin->stdout, file->stdout (decrypt), stdin->file (encrypt); tty-ness of both streams unconstrained; otherwise as the _flow harness", env=CMD_ENV + ["E-OS: std::io::stdout()/stdin() return an opaque handle; Stdout accepts every write, Stdin is never read by the library model"], outside=CMD_OUT)
+      bounds="wiring fixed per harness: stdin->file (quick); stdin->stdout, file->stdout (thorough); tty-ness of both streams unconstrained; otherwise as the _flow harness", env=CMD_ENV + ["E-OS: std::io::stdout()/stdin() return an opaque handle; Stdout accepts every write, Stdin is never read by the library model"], outside=CMD_OUT)
+H(name="cmd_open_keyring", crate="kestrel-cli", mod="commands::verif_cmd", props=["C12", "C17"], est_s=120, timeout=1800, mem_gb=8, replay="model",
+  desc="open_keyring: the keyring is read from the -k path, else from the path in KESTREL_KEYRING (never both); unset / non-unicode variable, missing file, malformed keyring => Err; the same file gives the same keyring either way",
+  funcs=["commands::open_keyring", "keyring::Keyring::new", "keyring::Keyring::parse_config"], bounds="4 file kinds x (-k | env set | env unset | env not unicode), concrete cases executed one after the other", env=["E-OS: std::env::var and std::fs::read return the modelled variable / file; String::from_utf8 on ASCII bytes", "E-STR", "E-B64", "E-CUT"], outside=CMD_OUT + "; non-UTF-8 keyring files")
 H(name="cmd_change_pass", crate="kestrel-cli", mod="commands::verif_cmd", props=["C16", "C07", "C12"], est_s=120, replay="model",
   desc="change_pass: unlock(given blob, OLD password); lock(THAT key, NEW password, salt = fresh 32-byte CSPRNG draw); one line printed; any failing step => Err, nothing locked/printed",
   funcs=["commands::change_pass"], bounds="one step from an arbitrary (key, blob, passwords) state", env=CMD_ENV, outside=CMD_OUT + "; text of the printed line")
